@@ -245,7 +245,10 @@ def u_set_render_method(ctx):
     for form, node in (("class", cls_form), ("instance", inst_form)):
         for own_has in (True, False):
             for defines_methods in ((True, False) if form == "class" else (True,)):
-                for label, val, verdict in (("None", None, "unset"), ("valid", "WHOLE", "set"), ("unknown", "bogus", "ValueError"), ("non-str", 5, "TypeError")):
+                for label, val, verdict in (("None", None, "unset"), ("valid", "WHOLE", "set"), ("unknown", "bogus", "ValueError"), ("non-str", 5, "TypeError"),
+                                            # falsy values that are not `None` are not "unset": they are rejected like any other non-string
+                                            ("zero", 0, "TypeError"), ("False", False, "TypeError"), ("empty-tuple", (), "TypeError"),
+                                            ("empty-string", "", "ValueError")):
                     eng = ctx.engine(f"C20/set_render_method[{form},{label},own={'set' if own_has else 'unset'},defines-own-default={defines_methods}]", "C20")
                     eng.default_replay = "C20.settings"
                     eng.genv.update(UTIL_ERRS)
